@@ -633,8 +633,17 @@ structure PnObs where
   content : Option (Nat × Nat)
 deriving DecidableEq, Repr
 
+/-- corpus.go:99 claimBack[value] / :1525 ForeachClaimBack: the claims whose value is the blobref `b`
+(whether or not `b` itself has arrived), as a function of the merged claim rows; the slice is documented
+as not sorted, so the harness and the driver compare it as a set -/
+def claimBackOf (b : Ref) : SMap Bytes → List Ref
+  | [] => []
+  | ([5, _, _, _, cl], [_, _, _, 1, v2, _]) :: rest => if v2 = b then cl :: claimBackOf b rest else claimBackOf b rest
+  | _ :: rest => claimBackOf b rest
+
 structure Obs where
   metas : List (Ref × Option Bytes)
+  backs : List (Ref × List Ref)           -- ForeachClaimBack
   deleted : List (Ref × Bool × Bool)      -- Index.IsDeleted, Corpus.IsDeleted
   pns : List PnObs
   byMod : List Ref
@@ -645,6 +654,7 @@ deriving DecidableEq, Repr
 /-- the answers of the exported query methods about the refs of `univ` (permanodes: `pns`) -/
 def observe (univ pns : List Ref) (fuel : Nat) (ixDeletes : List Del) (c : Corpus) : Obs :=
   { metas := univ.map (fun b => (b, SMap.get c.m (kMeta b))),
+    backs := univ.map (fun b => (b, claimBackOf b c.m)),
     deleted := univ.map (fun b => (b, isDeletedIn fuel ixDeletes b, c.isDeleted fuel b)),
     pns := pns.map (fun pn => ⟨pn, appendClaims c fuel pn, modtime c fuel pn, anyTime c fuel pn,
                                 attrValue c pn 0 0, attrValue c pn 0 1, attrValue c pn 3 0⟩),
